@@ -40,7 +40,8 @@ TRUSTED = [
     "harness/joinlib.py (tuple oracle enumeration, column alignment, exact scaling of floats to integers; indep_pair: the independent "
     "pairwise compatibility predicate, which reads the Compatibility objects' data — backing memory, loops above it, reservation "
     "stops — produced by Compatibility.from_mapping at make_pmappings time)",
-    "AFV/Driver/C13.lean `front` / `check` (all-pairs Pareto front and tolerance-aware set comparison on exact integers)",
+    "AFV/Driver/C13.lean: `front` = AFV.Front.frontFast (proved equal to the all-pairs definition AFV.Front.front in Lemmas/Front.lean); "
+    "`check` = tolerance-aware set comparison on exact integers (unachievable / missing / dominated), not itself the subject of a theorem",
 ]
 
 
@@ -126,7 +127,7 @@ def run_check(ctx: Ctx, plan):
     if ctx.thorough:
         dispatch, hard, extended, workers = 19 * 60, 25 * 60, 29 * 60, 8
     else:
-        dispatch, hard, extended, workers = 80, 150, 270, 8
+        dispatch, hard, extended, workers = 95, 155, 250, 8
     dispatch = float(os.environ.get("AFV_JOIN_DISPATCH_S", dispatch))
     hard = float(os.environ.get("AFV_JOIN_HARD_S", hard))
     extended = max(hard, float(os.environ.get("AFV_JOIN_EXTENDED_S", extended)))
@@ -140,7 +141,8 @@ def run_check(ctx: Ctx, plan):
     ctx.cov["pool_wall_s"] = round(time.time() - t0, 1)
     ctx.cov["jobs_cpu_s"] = [r.get("cpu_s") for _, r in done]
     ctx.cov["jobs_wall_s"] = [r.get("wall_s") for _, r in done]
-    if any(r is None for r in results[:n_corpus]) or len(done) < MIN_DONE:
+    ctx.cov["corpus_not_completed"] = [jobs[i].get("origin") for i in range(n_corpus) if results[i] is None]
+    if (ctx.replay and not done) or len(done) < MIN_DONE:
         raise HarnessError(f"only {len(done)} of {len(jobs)} join jobs completed within the time limit (machine overloaded?)")
     drv = ctx.driver()
     n_capacity = 0
